@@ -71,8 +71,8 @@ def affineOff (p : IrValue) : Except Err (IrValue × IrValue) :=
   | .point u v => .ok (.native u, .native v)
   | _ => .error (.unsupported .affine [p.type])
 
-/-- Minimal little-endian byte string of a natural (`BigUint::to_bytes_le`; zero is `[0]`). -/
-def bigToBytesLe (x : Nat) : List Nat := natToLeBytes (max 1 (divCeil (bitLen x) 8)) x
+/-- Number of bytes of the minimal little-endian byte string of a natural (zero has none). -/
+def byteLen (x : Nat) : Nat := divCeil (bitLen x) 8
 
 /-- `into_bytes.rs: IrValue::into_bytes`. -/
 def intoBytesOff (x : IrValue) (n : Nat) : Except Err IrValue :=
@@ -81,7 +81,7 @@ def intoBytesOff (x : IrValue) (n : Nat) : Except Err IrValue :=
     if n > divCeil FBits 8 ∨ a ≥ 2 ^ (8 * n) then .error .cannotConvert
     else .ok (.bytes (natToLeBytes n a))
   | .big a =>
-    if (bigToBytesLe a).length > n then .error .cannotConvert
+    if byteLen a > n then .error .cannotConvert
     else .ok (.bytes (natToLeBytes n a))
   | .point u v =>
     if n = 32 then .ok (.bytes (pointToBytes (u, v)))
